@@ -735,7 +735,9 @@ func c13Gen(rng *rand.Rand, tier string, w *bufio.Writer) {
 		"ap 81a178d07f - inc:78:d001",                                          // int8 wraps, stays int8
 		"ap 81a178ccff - inc:78:cc01",                                          // uint8 wraps
 		"ap 81a166ca7f7fffff - inc:66:ca7f7fffff",                              // float32 overflow → +Inf
-		"ap 81a166cb7ff0000000000000 - inc:66:cbfff0000000000000",              // Inf + -Inf
+		"apn 81a166cb7ff0000000000000 - inc:66:cbfff0000000000000",             // Inf + -Inf = NaN (payload: platform)
+		"apn 81a166cb7ff8000000000001 - inc:66:cb3ff0000000000000",             // NaN + 1
+		"apn 81a166ca3f800000 - inc:66:cb7ff80000deadbeef",                     // float32 + NaN delta
 		"ap 81a178d3800000000000000001 gt:78:d3000000000000000a set:7a:01",     // MinInt64+1 > 10 ? no
 		"ap 81a178d3800000000000000001 lt:78:d3000000000000000a set:7a:01",     // MinInt64+1 < 10 ? yes
 		"ap 81a178cf8000000000000000 gt:78:cf0000000000000001 set:7a:01",       // 2^63 > 1 (uint64) ? yes
@@ -812,7 +814,12 @@ func c13Gen(rng *rand.Rand, tier string, w *bufio.Writer) {
 			}
 			d = c13Tame(d)
 			fmt.Fprintf(w, "parse %s\n", c13H(d))
-			fmt.Fprintf(w, "ap %s %s %s\n", c13H(d), c13Cond(rng, addrs), c13Op(rng, addrs))
+			dop := " " + c13Op(rng, addrs)
+			dverb := "ap"
+			if strings.Contains(dop, " inc:") && (c13HasSpecialFloat(d) || c13OpsSpecialFloat(dop)) {
+				dverb = "apn"
+			}
+			fmt.Fprintf(w, "%s %s %s%s\n", dverb, c13H(d), c13Cond(rng, addrs), dop)
 			continue
 		}
 		fmt.Fprintf(w, "parse %s\n", c13H(body))
@@ -827,7 +834,13 @@ func c13Gen(rng *rand.Rand, tier string, w *bufio.Writer) {
 			for j := 0; j < nops; j++ {
 				sb.WriteString(" " + c13Op(rng, addrs))
 			}
-			fmt.Fprintf(w, "ap %s %s%s\n", c13H(body), c13Cond(rng, addrs), sb.String())
+			// an INC that may involve NaN / ±Inf yields a NaN whose payload bits are platform-defined
+			// (amd64 SSE2 here): such lines are `apn` — both sides print NaN leaves canonically
+			verb := "ap"
+			if strings.Contains(sb.String(), " inc:") && (c13HasSpecialFloat(body) || c13OpsSpecialFloat(sb.String())) {
+				verb = "apn"
+			}
+			fmt.Fprintf(w, "%s %s %s%s\n", verb, c13H(body), c13Cond(rng, addrs), sb.String())
 		}
 		if c%pfEvery == 0 {
 			stored := "absent"
@@ -851,6 +864,153 @@ func c13Gen(rng *rand.Rand, tier string, w *bufio.Writer) {
 			fmt.Fprintf(w, "pf %s %d %s %s %s\n", stored, rng.Intn(2), seed, c13Cond(rng, addrs), c13Op(rng, addrs))
 		}
 	}
+}
+
+// c13Special: is the 4/8-byte big-endian float pattern NaN or ±Inf (exponent all ones)?
+func c13Special(p []byte) bool {
+	if len(p) == 4 {
+		return p[0]&0x7f == 0x7f && p[1]&0x80 == 0x80
+	}
+	return len(p) == 8 && p[0]&0x7f == 0x7f && p[1]&0xf0 == 0xf0
+}
+
+// c13Scan walks one msgpack value structurally (no allocation by declared counts) and calls
+// leaf(code offset) for every float32/float64 leaf it fully contains; it stops silently at the
+// first malformed or truncated item.  The same walk is `canonNaN` in lean/Driver/C13.lean.
+func c13Scan(b []byte, float func(off, n int)) {
+	pending, i := 1, 0
+	for pending > 0 && i < len(b) {
+		c := b[i]
+		pending--
+		fixed, lenp, ext, count := -1, 0, 0, -1
+		switch {
+		case c <= 0x7f || c >= 0xe0 || c == 0xc0 || c == 0xc2 || c == 0xc3:
+			fixed = 0
+		case c >= 0x80 && c <= 0x8f:
+			pending += 2 * int(c-0x80)
+			i++
+			continue
+		case c >= 0x90 && c <= 0x9f:
+			pending += int(c - 0x90)
+			i++
+			continue
+		case c >= 0xa0 && c <= 0xbf:
+			fixed = int(c - 0xa0)
+		case c == 0xc1:
+			return
+		case c == 0xca:
+			fixed = 4
+		case c == 0xcb:
+			fixed = 8
+		case c == 0xcc || c == 0xd0:
+			fixed = 1
+		case c == 0xcd || c == 0xd1:
+			fixed = 2
+		case c == 0xce || c == 0xd2:
+			fixed = 4
+		case c == 0xcf || c == 0xd3:
+			fixed = 8
+		case c >= 0xd4 && c <= 0xd8:
+			fixed = 1 + (1 << uint(c-0xd4))
+		case c == 0xc4 || c == 0xd9:
+			lenp = 1
+		case c == 0xc5 || c == 0xda:
+			lenp = 2
+		case c == 0xc6 || c == 0xdb:
+			lenp = 4
+		case c == 0xc7:
+			lenp, ext = 1, 1
+		case c == 0xc8:
+			lenp, ext = 2, 1
+		case c == 0xc9:
+			lenp, ext = 4, 1
+		case c == 0xdc || c == 0xde:
+			count = 2
+		case c == 0xdd || c == 0xdf:
+			count = 4
+		}
+		switch {
+		case fixed >= 0:
+			if i+1+fixed > len(b) {
+				return
+			}
+			if c == 0xca || c == 0xcb {
+				float(i, fixed)
+			}
+			i += 1 + fixed
+		case lenp > 0:
+			if i+1+lenp > len(b) {
+				return
+			}
+			m := 0
+			for _, x := range b[i+1 : i+1+lenp] {
+				m = m<<8 | int(x)
+			}
+			if i+1+lenp+m+ext > len(b) {
+				return
+			}
+			i += 1 + lenp + m + ext
+		default:
+			if i+1+count > len(b) {
+				return
+			}
+			m := 0
+			for _, x := range b[i+1 : i+1+count] {
+				m = m<<8 | int(x)
+			}
+			if c == 0xde || c == 0xdf {
+				m *= 2
+			}
+			pending += m
+			i += 1 + count
+		}
+	}
+}
+
+func c13HasSpecialFloat(b []byte) bool {
+	found := false
+	c13Scan(b, func(off, n int) {
+		if c13Special(b[off+1 : off+1+n]) {
+			found = true
+		}
+	})
+	return found
+}
+
+// any op value in the (already rendered) op list that contains a NaN / ±Inf float
+func c13OpsSpecialFloat(ops string) bool {
+	for _, tok := range strings.Fields(ops) {
+		p := strings.Split(tok, ":")
+		if len(p) == 3 && c13HasSpecialFloat(c13Unhex(p[2])) {
+			return true
+		}
+	}
+	return false
+}
+
+// c13CanonNaN rewrites every NaN float leaf to the canonical quiet NaN (7fc00000 / 7ff8000000000000)
+func c13CanonNaN(b []byte) []byte {
+	out := append([]byte(nil), b...)
+	c13Scan(b, func(off, n int) {
+		p := b[off+1 : off+1+n]
+		isNaN := false
+		if n == 4 {
+			isNaN = p[0]&0x7f == 0x7f && p[1]&0x80 == 0x80 && (p[1]&0x7f != 0 || p[2] != 0 || p[3] != 0)
+		} else {
+			isNaN = p[0]&0x7f == 0x7f && p[1]&0xf0 == 0xf0 && (p[1]&0x0f != 0 || p[2] != 0 || p[3] != 0 || p[4] != 0 || p[5] != 0 || p[6] != 0 || p[7] != 0)
+		}
+		if isNaN {
+			for k := range out[off+1 : off+1+n] {
+				out[off+1+k] = 0
+			}
+			if n == 4 {
+				out[off+1], out[off+2] = 0x7f, 0xc0
+			} else {
+				out[off+1], out[off+2] = 0x7f, 0xf8
+			}
+		}
+	})
+	return out
 }
 
 // c13Tame clears the high bytes of any 32-bit count/length field that a random byte flip may
@@ -1075,7 +1235,7 @@ func c13Run(in *bufio.Scanner, w *bufio.Writer) {
 				var sb strings.Builder
 				c13Dump(s, blob, &sb)
 				fmt.Fprintln(w, "ok "+sb.String())
-			case f[0] == "ap" && len(f) >= 3:
+			case (f[0] == "ap" || f[0] == "apn") && len(f) >= 3:
 				ops, ok1 := c13ParseOps(f[3:])
 				cond, ok2 := c13ParseCond(f[2])
 				if !ok1 || !ok2 {
@@ -1100,6 +1260,9 @@ func c13Run(in *bufio.Scanner, w *bufio.Writer) {
 				wf := 0
 				if _, perr := msgpackpatch.Parse(out); perr == nil {
 					wf = 1
+				}
+				if f[0] == "apn" {
+					out = c13CanonNaN(out)
 				}
 				fmt.Fprintf(w, "out %s wf=%d\n", c13H(out), wf)
 			case f[0] == "pf" && len(f) >= 5:
